@@ -5,6 +5,7 @@ import ColoVerif.Gen.WriteSets
 import ColoVerif.Proofs.BusyLemmas
 import ColoVerif.Proofs.BusySizes
 import ColoVerif.Proofs.NetsValue
+import ColoVerif.Proofs.NetsValueTie
 import ColoVerif.Model.LegacyBusy
 import ColoVerif.Properties.C01
 /-
@@ -423,6 +424,31 @@ example : run (NetsValue.init 3) [.add [0, 5] 2 2, .add [0, 2] 2 2, .add [1] 1 1
     = ⟨3, [0, 1, 3], [2, 0, 1], 3, 3, 2⟩ := by decide
 /-- … and the invariant is not trivially true: limits that do not start at 0, or a pin naming no cell, violate it. -/
 example : ¬ Wf ⟨3, [1, 2], [0], 1, 1, 1⟩ ∧ ¬ Wf ⟨3, [0, 1], [3], 1, 1, 1⟩ := by decide
+
+/-- **The hand-written value model of `addNet` agrees with the skeleton regenerated from the source**, for all states and
+all arguments: the translated body of `addNet` (`Gen/ApiSizes.lean`), run by the size semantics on the abstraction
+`absSz` of the value state, throws exactly when `NetsValue.addNet` refuses, and leaves exactly the lengths of
+`netLimits_`, `netWeights_`, `pinCells_`, `pinXOffsets_`, `pinYOffsets_` and the `netLimits_.back()` of the value
+model's result.  So the three validation steps of the hand model (length test, pin range, empty net) and its five
+length effects are re-derived from `src/coloquinte.cpp` on every run.  (`setNets`: stated as
+`setNets_refines_full_statement`, not proved yet — its tie is the `nv*` correspondence only.) -/
+theorem addNet_value_model_matches_translation (s : Nets) (cells : List Int) (nxo nyo : Nat) :
+    ∀ f ∈ ApiSizes.setters, f.name = "addNet" →
+      ((BusySizes.execS BusySizes.noCallS (addArgs cells nxo nyo) 0 f.body ⟨false, absSz s⟩).out = .thrown
+          ↔ addNet s cells nxo nyo = none) ∧
+      netView (BusySizes.execS BusySizes.noCallS (addArgs cells nxo nyo) 0 f.body ⟨false, absSz s⟩).st.sz
+        = netView (absSz (step s (.add cells nxo nyo))) := addNet_refines s cells nxo nyo
+
+/-- the `setNets` counterpart of `addNet_value_model_matches_translation` (full statement; NOT proved) -/
+def setNets_refines_full_statement : Prop :=
+  ∀ (s : Nets) (limits cells : List Int) (nxo nyo nwt : Nat), ∀ f ∈ ApiSizes.setters, f.name = "setNets" →
+    ((BusySizes.execS BusySizes.noCallS (setArgs limits cells nxo nyo nwt) 0 f.body ⟨false, absSz s⟩).out = .thrown
+        ↔ setNets s limits cells nxo nyo nwt = none) ∧
+    netView (BusySizes.execS BusySizes.noCallS (setArgs limits cells nxo nyo nwt) 0 f.body ⟨false, absSz s⟩).st.sz
+      = netView (absSz (step s (.set limits cells nxo nyo nwt)))
+
+/-- non-vacuity: the table has an `addNet` entry -/
+example : ∃ f ∈ ApiSizes.setters, f.name = "addNet" := by decide
 
 end Nets
 
